@@ -11,7 +11,8 @@ From RecordUpdate Require Import RecordUpdate.
 From WV Require Import Lib.PyBytes Model.Receiver Model.Parser Model.ChanSeq
   Proof.ReceiverTotal Proof.ParserTotal Proof.ParserTotalChan Proof.ParserTotalLimits
   Proof.ParserTotalExamples
-  Gen.GenTables Model.Task Spec.ClientParse Proof.TaskHead Proof.TaskFrameClient Proof.TaskFrame2Err Proof.C06ErrWf.
+  Gen.GenTables Model.Task Spec.ClientParse Proof.TaskHead Proof.TaskFrameClient Proof.TaskFrame2Err Proof.C06ErrWf
+  Gen.GenPreds Proof.ServerBase Proof.ServerLoop.
 Import ListNotations.
 Local Open Scope N_scope.
 
@@ -165,3 +166,30 @@ Theorem C06_error_response_wf_head : forall c r a e body,
     /\ o_close res = true /\ o_next res = false /\ o_served_500 res = false /\ o_escaped res = None.
 Proof. exact error_response_wf_head. Qed.
 Print Assumptions C06_error_response_wf_head.
+
+(* "Stops consuming" at the level of the I/O loop.  C06_stop: received() consumes
+   nothing once the connection is closing.  The loop-level half: the loop does not
+   even dispatch a read event then.  HTTPChannel.readable and BOTH loop bodies
+   (wasyncore.poll; poll2 + readwrite, used when asyncore_use_poll is on) are
+   regenerated from the source on every run (Gen/GenPreds.v) and Proof/ServerLoop.v
+   proves that a read event reaches an object only if its readable() held at scan
+   time.  Composed: a channel that is marked will_close or close_when_flushed, has
+   output pending, or has more than `lookahead` requests queued gets no
+   handle_read_event in that turn - for every answer of the kernel within the
+   stated select / poll contract (sub-lists of what was passed; POLLIN / POLLPRI /
+   POLLOUT only if registered, error flags unconstrained). *)
+Theorem C06_no_read_event_select : forall wc cwf n la tot w a ret_r ret_w ret_e,
+  (wc || cwf || (la <? n)%Z || negb (tot =? 0)%Z) = true ->
+  select_returns (gen_poll_r (gen_chan_readable wc cwf n la tot) w a)
+                 (gen_poll_w (gen_chan_readable wc cwf n la tot) w a)
+                 (gen_poll_e (gen_chan_readable wc cwf n la tot) w a) ret_r ret_w ret_e ->
+  sel_read (select_turn ret_r ret_w ret_e) = false.
+Proof. exact no_read_when_not_readable_select. Qed.
+Print Assumptions C06_no_read_event_select.
+
+Theorem C06_no_read_event_poll2 : forall wc cwf n la tot w a rv,
+  (wc || cwf || (la <? n)%Z || negb (tot =? 0)%Z) = true ->
+  poll_returns (gen_poll2_reg (gen_chan_readable wc cwf n la tot) w a) rv ->
+  p2_read (poll2_turn rv) = false.
+Proof. exact no_read_when_not_readable_poll2. Qed.
+Print Assumptions C06_no_read_event_poll2.
